@@ -41,12 +41,68 @@ def run(ctx: core.Ctx) -> int:
     if not params:
         raise core.AnalysisError("_process_model has no target-time parameter")
     body = rtmodel.py_block(fn.body)
-    for sc in ("fwd", "bwd"):
-        ex = rtmodel.StepExec("py", "_process_model", body, {}, sc, rtmodel.py_anchor(params[0]))
-        plan = ex.run()
-        rtmodel.check_stepplan(ctx, plan, rel, "ManagedFilter._process_model", "python")
-        nplans += 1
-        _check_return(ctx, plan, rel, "ManagedFilter._process_model", "python")
+    variants = [("", body, None)]
+    extras = [p for p in params[1:] if p != "control"]
+    if extras:
+        # the step (or something it is computed from) is handed in by the callers: analyse the function once per call site with the
+        # caller's argument expressions inlined (caller-local names are kept apart from the callee's: `caller::name`)
+        from .. import normstmt
+        variants = []
+        for m in cls.body:
+            if not isinstance(m, ast.FunctionDef) or m is fn:
+                continue
+            al = normstmt.Aliases(m)
+            for c in ast.walk(m):
+                if isinstance(c, ast.Call) and isinstance(c.func, ast.Attribute) and c.func.attr == fn.name and isinstance(c.func.value, ast.Name) and c.func.value.id == "self":
+                    bound = dict(zip(params, c.args))
+                    bound.update({k.arg: k.value for k in c.keywords if k.arg in params})
+                    import copy
+                    # backward slice of the caller: the top-level statements before the call that define what the extra arguments use
+                    top = None
+                    for st in m.body:
+                        if c in list(ast.walk(st)):
+                            top = st
+                    before = m.body[:m.body.index(top)] if top is not None else []
+                    needed = set()
+                    for p in extras:
+                        if p in bound:
+                            needed |= {n.id for n in ast.walk(bound[p]) if isinstance(n, ast.Name) and n.id != "self"}
+                    sl = []
+                    for st in reversed(before):
+                        assigned = {t.id for a in ast.walk(st) if isinstance(a, (ast.Assign, ast.AugAssign))
+                                    for t in (a.targets if isinstance(a, ast.Assign) else [a.target]) if isinstance(t, ast.Name)}
+                        if assigned & needed:
+                            sl.insert(0, st)
+                            needed |= {n.id for n in ast.walk(st) if isinstance(n, ast.Name) and n.id != "self"}
+
+                    def ren(node):
+                        node = copy.deepcopy(node)
+                        for nmn in ast.walk(node):
+                            if isinstance(nmn, ast.Name) and nmn.id != "self":
+                                nmn.id = "caller::" + nmn.id
+                        return node
+                    pre = rtmodel.py_block([ren(st) for st in sl])
+                    for p in extras:
+                        if p not in bound:
+                            continue
+                        pre.append(("decl", p, rtmodel.py_expr(ren(bound[p])), ""))
+                    tgt_ir = rtmodel.py_expr(ren(bound[params[0]])) if params[0] in bound else None
+                    variants.append((f" called from {m.name}:{c.lineno}", pre + body, tgt_ir))
+        if not variants:
+            ctx.error(f"{rel}: _process_model takes {extras} but no call site was found")
+    for vtag, vbody, tgt_ir in variants:
+        base_anchor = rtmodel.py_anchor(params[0])
+
+        def anchor(e, tgt_ir=tgt_ir, base_anchor=base_anchor):
+            if tgt_ir is not None and e == tgt_ir:
+                return rtmodel.Sym.TARGET          # the caller's own expression for this move's target
+            return base_anchor(e)
+        for sc in ("fwd", "bwd"):
+            for plan in rtmodel.step_plans("py", "_process_model", vbody, sc, anchor):
+                rtmodel.check_stepplan(ctx, plan, rel, "ManagedFilter._process_model", "python" + vtag)
+                nplans += 1
+                if not plan.foreign_tests:
+                    _check_return(ctx, plan, rel, "ManagedFilter._process_model", "python" + vtag)
     nplans += cpp_part(ctx)
     ctx.floor("STEPPLAN", nplans, 10, "step plans (1 Python + 4 C++ instantiations, 2 directions each)")
     from . import c06 as _c06
@@ -72,11 +128,10 @@ def cpp_part(ctx: core.Ctx) -> int:
             seen += 1
             ctx.functions.append(f"ManagedFilter<{val}>::processUpdate({', '.join(t for _, t in params)})")
             for sc in ("fwd", "bwd"):
-                ex = rtmodel.StepExec("cpp", "processUpdate", body, {}, sc, rtmodel.cpp_anchor(params[0][0]))
-                plan = ex.run()
-                rtmodel.check_stepplan(ctx, plan, HDR, f"ManagedFilter::processUpdate/{len(params)}", f"C++ {val}")
-                _check_return(ctx, plan, HDR, f"ManagedFilter::processUpdate/{len(params)}", f"C++ {val}")
-                nplans += 1
+                for plan in rtmodel.step_plans("cpp", "processUpdate", body, sc, rtmodel.cpp_anchor(params[0][0])):
+                    rtmodel.check_stepplan(ctx, plan, HDR, f"ManagedFilter::processUpdate/{len(params)}", f"C++ {val}")
+                    _check_return(ctx, plan, HDR, f"ManagedFilter::processUpdate/{len(params)}", f"C++ {val}")
+                    nplans += 1
     return nplans
 
 
